@@ -1,7 +1,7 @@
 (* Final forms of the C20 statements (on submatrix coordinates, as the
    collections' function pointers take them), refutation witnesses. *)
 From PV Require Import Base.Tac Dist.DistDefs Dist.DistArith Dist.DistSum Dist.DistBC1 Dist.DistBCProofs
-  Dist.DistSymProofs Dist.DistMiscProofs.
+  Dist.DistSymProofs Dist.DistMiscProofs Dist.DistKview.
 Local Open Scope Z_scope.
 
 (* ---- legal arguments of parsec_tiled_matrix_init give a well-formed descriptor ---- *)
@@ -135,6 +135,45 @@ Proof.
   destruct (Z.eq_dec (bc_position d r m n) (bc_position d r m' n')) as [E|Ne].
   - left. destruct (bc_slot_injective d m n m' n' W Wt Hs Hs' Hr E). congruence.
   - right. nia.
+Qed.
+
+(* ---- the k-cyclic view: a permutation of the submatrix's tiles, then the plain functions ---- *)
+Lemma kv_in_sub d vkp vkq m n : wf_bc d -> 0 < vkp -> 0 < vkq -> in_sub (bT d) m n ->
+  in_sub (bT d) (kv_m d vkp m) (kv_n d vkq n).
+Proof.
+  intros W Hp Hq [Hm Hn]. unfold wf_bc in W. unfold in_sub, kv_m, kv_n.
+  split; apply kview_in_range; lia.
+Qed.
+
+Theorem kv_slot_in_range d vkp vkq m n : wf_bc d -> wf_tmat (bT d) -> 0 < vkp -> 0 < vkq -> in_sub (bT d) m n ->
+  0 <= kv_rank_of d vkp vkq m n < bP d * bQ d /\
+  0 <= kv_position d vkp vkq (kv_rank_of d vkp vkq m n) m n < bc_nb_local_tiles d (kv_rank_of d vkp vkq m n).
+Proof.
+  intros W Wt Hp Hq Hs. split; [apply bc_rank_in_range; exact W|].
+  apply bc_slot_in_range; try assumption. apply kv_in_sub; assumption.
+Qed.
+
+Theorem kv_slot_injective d vkp vkq m n m' n' : wf_bc d -> wf_tmat (bT d) -> 0 < vkp -> 0 < vkq ->
+  in_sub (bT d) m n -> in_sub (bT d) m' n' -> kv_rank_of d vkp vkq m n = kv_rank_of d vkp vkq m' n' ->
+  kv_position d vkp vkq (kv_rank_of d vkp vkq m n) m n = kv_position d vkp vkq (kv_rank_of d vkp vkq m n) m' n' ->
+  m = m' /\ n = n'.
+Proof.
+  intros W Wt Hp Hq Hs Hs' Hr Hpos.
+  destruct (bc_slot_injective d _ _ _ _ W Wt (kv_in_sub d vkp vkq m n W Hp Hq Hs)
+              (kv_in_sub d vkp vkq m' n' W Hp Hq Hs') Hr Hpos) as [E1 E2].
+  destruct Hs as [Hm Hn]. destruct Hs' as [Hm' Hn']. unfold wf_bc in W. unfold kv_m, kv_n in *.
+  split; [apply (kview_injective (bP d) vkp (t_mt (bT d))) | apply (kview_injective (bQ d) vkq (t_nt (bT d)))];
+    try assumption; lia.
+Qed.
+
+(* every tile of the submatrix is seen through the view *)
+Theorem kv_onto d vkp vkq m n : wf_bc d -> 0 < vkp -> 0 < vkq -> in_sub (bT d) m n ->
+  exists m0 n0, in_sub (bT d) m0 n0 /\ kv_m d vkp m0 = m /\ kv_n d vkq n0 = n.
+Proof.
+  intros W Hp Hq [Hm Hn]. unfold wf_bc in W. unfold kv_m, kv_n.
+  destruct (kview_onto (bP d) vkp (t_mt (bT d)) ltac:(lia) Hp m Hm) as (m0 & Hm0 & E1).
+  destruct (kview_onto (bQ d) vkq (t_nt (bT d)) ltac:(lia) Hq n Hn) as (n0 & Hn0 & E2).
+  exists m0, n0. unfold in_sub. auto.
 Qed.
 
 (* ================= symmetric ================= *)
